@@ -26,7 +26,7 @@ ASSUMPTIONS = [
     "K9 is extracted by pattern matching on the source of wrap.py / executors.py / bind.py",
 ]
 RULE = ("random with_* chains (map, flat_map, retry, timeout, throttle, cancel_on_shutdown, poll; explicit/implicit names) applied before "
-        "and/or after bind / flat_bind x callable kinds (function, partial, callable object, future-returning) x outcome scripts; the "
+        "and/or after bind / flat_bind x callable kinds (function, partial, callable object, bound callable of another executor, future-returning) x outcome scripts; the "
         "bind form and the submit form are run side by side; distinct = distinct (chain, callable, script); non-trivial = both futures terminal")
 
 LAYERS = ["map", "flat_map", "retry", "timeout", "throttle", "cancel_on_shutdown"]
@@ -43,7 +43,7 @@ def gen_scenarios(seed, tier):
             return out
         d = dict(idx=i, base=rng.choice(["sync", "pool"]), base_name=rng.choice(["bn", "bn", None]),
                  before=chain(rng.choice([0, 0, 1, 2])), after=chain(rng.choice([0, 1, 1, 2, 3])),
-                 flat=rng.random() < 0.3, callable=rng.choice(["function", "partial", "object"]),
+                 flat=rng.random() < 0.3, callable=rng.choice(["function", "partial", "object", "bound"]),
                  script=[rng.choice(["ok", "ok", "err"]) for _ in range(4)], seed=rng.randrange(1 << 30))
         d.update(schedule_modes(rng))
         d["trace_lines"] = rng.random() < 0.3
@@ -80,6 +80,17 @@ class CallObj(object):
         return self.f(*a, **k)
 
 
+def canon(v):
+    """results may contain Future objects (a bound callable of another executor returns one): compare them by outcome"""
+    from concurrent.futures import Future
+    if isinstance(v, Future):
+        o = outcome(v) if v.done() else ("pending", None)
+        return ("<future>", o[0], canon(o[1]) if o[0] == "ok" else (type(o[1]).__name__, str(o[1])) if o[0] == "err" else None)
+    if isinstance(v, tuple):
+        return tuple(canon(x) for x in v)
+    return v
+
+
 def body_for(desc, ctx):
     from more_executors import Executors
     from more_executors.futures import f_return, f_return_error
@@ -96,7 +107,7 @@ def body_for(desc, ctx):
                 i = len(_calls)
                 _calls.append(x)
                 oc = _script[min(i, len(_script) - 1)]
-                if desc["flat"]:
+                if desc["flat"] and desc["callable"] != "bound":
                     if oc == "ok":
                         return f_return(("v", x))
                     return f_return_error(EXC["E0"]("a%d" % i))
@@ -107,6 +118,9 @@ def body_for(desc, ctx):
                 fn = functools.partial(lambda pad, x: raw(x), 0)
             elif desc["callable"] == "object":
                 fn = CallObj(raw)
+            elif desc["callable"] == "bound":
+                # a callable object that is itself a bound callable of ANOTHER executor: it returns that executor's future
+                fn = Executors.sync(name="inner").bind(raw)
             else:
                 fn = raw
             kw = {} if desc["base_name"] is None else {"name": desc["base_name"]}
@@ -135,7 +149,7 @@ def body_for(desc, ctx):
             if not fut.done():
                 s.block(lambda: fut.done(), s.now + 500.0, ("waitout",))
             o = outcome(fut)
-            ctx.results[form] = (o[0], repr(o[1]) if o[0] == "ok" else
+            ctx.results[form] = (o[0], repr(canon(o[1])) if o[0] == "ok" else
                                  ((type(o[1]).__name__, str(o[1]) if isinstance(o[1], EXC["E0"]) else "") if o[0] == "err" else None))
             ctx.calls[form] = list(calls)
             ctx.names[form] = [e[3] for e in s.log[mark:] if e[1] == "spawn"]
